@@ -7,6 +7,8 @@ EXTRA = {'C19_2': ['C15'], 'C14_1': ['C16'], 'C01_2': ['C05'], 'C04_1': ['C05'],
 EXTRA.update({'C02_9': ['C01'], 'C02_10': ['C20', 'C16'], 'C03_9': ['C18'], 'C03_10': ['C15'], 'C04_9': ['C05'], 'C05_10': ['C14'],
               'C06_9': ['C14'], 'C09_10': ['C13'], 'C11_9': ['C19'], 'C14_10': ['C16'], 'C16_9': ['C14'], 'C17_9': ['C16'],
               'C19_10': ['C16'], 'C20_10': ['C16']})
+EXTRA.update({'C03_11': ['C16', 'C17'], 'C03_12': ['C14'], 'C05_11': ['C08'], 'C01_11': ['C07'], 'C07_11': ['C01'], 'C07_12': ['C10'],
+              'C16_12': ['C17'], 'C11_11': ['C05'], 'C08_12': ['C05'], 'C13_11': ['C09'], 'C19_11': ['C13'], 'C12_11': ['C09'], 'C20_11': ['C17']})
 only = sys.argv[1:]
 for patch in sorted(glob.glob('/tmp/mut/C??_*.patch.diff')):
     mid = os.path.basename(patch)[:-len('.patch.diff')]
